@@ -213,7 +213,7 @@ def body():
                     R = Ptest.T.dot(Af).dot(Pdom)
                     e = np.abs(R - Ac).max() / max(1e-3, np.abs(Ac).max())
                     chk.count(("nested", s.id, tag, name), True)
-                    if e > TOL:
+                    if not (e <= TOL):   # NaN counts as a deviation
                         chk.violation("nested:%s:%s" % (tag, name.split(" ")[0]), "P^T A_fine P differs from A_coarse by %.3g (probe kernel, %s refinement, %s) on %s" % (e, tag, name, label), {"surface": s.h["cells"]})
             if not quick and s.h["closed"]:
                 errs = []
